@@ -106,6 +106,9 @@ func c08History(t *vk.T, proto string, n, th, rep int, env vk.Env) {
 		t.Violation(proto+"|keygen|"+fails[0][0], "%s", fails[0][1])
 		return
 	}
+	if cmm, ok := cur.(*fx.CMPMat); ok && rep%2 == 1 {
+		cmm.Path = "presign+online" // every second CMP history signs through presignatures
+	}
 	key := cur.Shares()[0].GroupKey
 	maxLen := env.Pick(3, 6)
 	if proto == "cmp" {
